@@ -308,6 +308,78 @@ def run(jobs, limit):
     summary(list(done.values()))
 
 
+def check_only(m):
+    """rules only (no tests) for one mutant: -> (id, flagged rules, errors)"""
+    warnings.simplefilter('ignore')
+    sys.path.insert(0, VERIF)
+    tmp = tempfile.mkdtemp(prefix='bardolph-mut-', dir='/var/tmp')
+    try:
+        subprocess.run('cp -r %s/bardolph %s/web %s/ ; find %s -name __pycache__ '
+                       '-prune -exec rm -rf {} +' % (REPO, REPO, tmp, tmp), shell=True)
+        p = os.path.join(tmp, m['file'])
+        src = open(p, encoding='utf-8').read()
+        if src[m['start']:m['end']] != m['old']:
+            return m['id'], None, ['stale']
+        open(p, 'w', encoding='utf-8').write(
+            src[:m['start']] + m['new'] + src[m['end']:])
+        from sa.analysis import Analysis
+        from sa import rules as _r   # noqa: F401
+        from sa.report import RULES, load_known, match_known
+        from sa.index import AnalysisError
+        flagged, errors = [], []
+        try:
+            A = Analysis(tmp)
+            known = load_known()
+            for r in RULES:
+                try:
+                    run = A.run_rule(r)
+                except AnalysisError as ex:
+                    errors.append('%s: %s' % (r.id, str(ex)[:80]))
+                    continue
+                except Exception as ex:      # noqa: BLE001
+                    errors.append('%s: %s %s' % (r.id, type(ex).__name__, str(ex)[:60]))
+                    continue
+                for f in run.findings:
+                    if match_known(f, known) is None:
+                        flagged.append(r.id)
+        except AnalysisError as ex:
+            errors.append('analysis: %s' % str(ex)[:100])
+        return m['id'], sorted(set(flagged)), errors[:3]
+    finally:
+        shutil.rmtree(tmp, ignore_errors=True)
+
+
+def recheck(jobs, pattern):
+    """Re-run the (current) rules on the mutants that survived both the rules
+    and the tests in the recorded sweep; report which are caught now."""
+    from multiprocessing import Pool
+    import re
+    muts = {m['id']: m for m in json.load(open(os.path.join(OUT, 'mutants.json')))}
+    rp = os.path.join(OUT, 'mutation_results.json')
+    rs = json.load(open(rp))
+    surv = [r for r in rs if not r.get('flagged') and not r.get('analysis_errors')
+            and r.get('tests') == 'pass' and not r.get('triage')]
+    if pattern:
+        surv = [r for r in surv if re.search(pattern, '%s %s %s' % (
+            r['file'], r['func'], r['id']))]
+    todo = [muts[r['id']] for r in surv if r['id'] in muts]
+    print('re-checking %d surviving mutants' % len(todo))
+    byid = {r['id']: r for r in rs}
+    caught = 0
+    with Pool(jobs) as pool:
+        for mid, flagged, errors in pool.imap_unordered(check_only, todo):
+            if flagged or errors:
+                caught += 1
+                byid[mid]['flagged_later'] = flagged
+                byid[mid]['errors_later'] = errors
+                r = byid[mid]
+                print('%s %s:%d %s [%s] -> %s %s' % (
+                    mid, r['file'], r['line'], r['func'], r['kind'],
+                    ','.join(flagged or []), errors or ''))
+    json.dump(rs, open(rp, 'w'), indent=0)
+    print('%d of %d now reported' % (caught, len(todo)))
+
+
 def summary(rs):
     n = len(rs)
     flagged = [r for r in rs if r.get('flagged')]
@@ -315,10 +387,13 @@ def summary(rs):
     unfl = [r for r in rs if not r.get('flagged') and not r.get('analysis_errors')]
     surv = [r for r in unfl if r.get('tests') == 'pass']
     killed = [r for r in unfl if r.get('tests') == 'fail']
+    later = [r for r in surv if r.get('flagged_later') or r.get('errors_later')]
     print('mutants %d: reported by a rule %d, analysis error (fail-closed) %d, '
-          'unreported %d (tests kill %d, survive both %d)'
-          % (n, len(flagged), len(err), len(unfl), len(killed), len(surv)))
-    return surv
+          'unreported %d (tests kill %d, survive both %d; of those reported '
+          'by rules added later %d)'
+          % (n, len(flagged), len(err), len(unfl), len(killed), len(surv),
+             len(later)))
+    return [r for r in surv if r not in later]
 
 
 def show(args):
@@ -343,6 +418,9 @@ def main():
         run(opt('--jobs', 16), opt('--limit', 0))
     elif cmd == 'show':
         show(args)
+    elif cmd == 'recheck':
+        pat = args[args.index('--match') + 1] if '--match' in args else None
+        recheck(opt('--jobs', 16), pat)
 
 
 if __name__ == '__main__':
